@@ -283,7 +283,28 @@ func StopWorkers() {
 	}
 }
 
+// confirmedHangs counts watchdog expiries that were confirmed by a second, longer run (see runIsolated).
+var confirmedHangs int
+
+// runIsolated runs one case in the watchdogged child. A watchdog expiry is confirmed before it is reported: on a
+// starved machine (other checks running, load far above the core count) a finite case can miss the watchdog, a real
+// hang misses any. The case is run again alone in a fresh child with three times the budget; only if that expires too
+// is `terminates` reported. After three confirmed hangs in one run the confirmation is skipped (the code under test
+// evidently does hang; each confirmation costs 3x the watchdog).
 func runIsolated(p Property, iso Isolated, c Case) (Outcome, string) {
+	out, st := runIsolatedT(p, iso, c, iso.CaseTimeout())
+	if out.Class != "hang" || confirmedHangs >= 3 {
+		return out, st
+	}
+	out2, st2 := runIsolatedT(p, iso, c, 3*iso.CaseTimeout())
+	if out2.Class != "hang" {
+		return out2, st2
+	}
+	confirmedHangs++
+	return out, st
+}
+
+func runIsolatedT(p Property, iso Isolated, c Case, timeout time.Duration) (Outcome, string) {
 	if curWorker == nil {
 		w, err := startWorker(p)
 		if err != nil {
@@ -331,7 +352,7 @@ func runIsolated(p Property, iso Isolated, c Case) (Outcome, string) {
 				Got: "garbled worker output", Sig: "crash:garbled"}}}, ""
 		}
 		return m.Out, m.Stack
-	case <-time.After(iso.CaseTimeout()):
+	case <-time.After(timeout):
 		// take a goroutine dump to name the spinning function, then kill
 		w.cmd.Process.Signal(syscallSIGQUIT)
 		time.Sleep(300 * time.Millisecond)
